@@ -1500,3 +1500,46 @@ def ttl_sequence_cases():
     for seq in relative_datatype_documents()[1]:
         for layout in REDECL_LAYOUTS:
             yield {"docs": [{"parts": parts, "layout": layout} for parts in seq], "family": "sequence"}
+
+
+# ------------------------------------------------------------------------------------------------
+# C07: trailing comments whose '#' follows a TAB, a TAB and a blank, or several blanks
+# ------------------------------------------------------------------------------------------------
+TAB_COMMENT_SEPS = ["\t# note\n", "\t # note\n", "   # note\n", "\t\t# a note with words ex:x , 7 .\n", " \t# note ;\n"]
+
+
+def ttl_tab_comment_cases():
+    """Documents of 2-3 statements (prefixed names, <IRI>s, a blank node, integers and one well-behaved literal in
+    mid-line); one trailing comment, separated from the last token of its line by a TAB / TAB+blank / several blanks,
+    after every token that is followed by more of the document (so at least the rest of a statement or another
+    statement comes after the commented line); the other line breaks either nowhere else or after every punctuation."""
+    docs = [
+        [["ex:s1", [["ex:p", ["ex:o1"]]], False], [":s2", [[":q", [":o3"]]], False]],
+        [["ex:s1", [["ex:p", ["ex:o1", "42"]], ["a", [":o3"]]], False], ["_:b1", [["ex:p", ["<http://ex.org/o2>"]]], False]],
+        [["<http://ex.org/s1>", [["<http://ex.org/p>", ["<http://ex.org/o2>", "_:b2"]]], False],
+         ["<http://ex.org/s1>", [["<http://ex.org/p>", ["-7"]]], False], ["ex:s1", [["a", ["ex:o1"]]], False]],
+        [["ex:s1", [["ex:p", ['"x"', "ex:o1"]]], False], ["ex:s1", [[":q", ['"w"^^<http://ex.org/dt/foo>']]], False]],
+    ]
+    for groups in docs:
+        toks, _ = ttl_tokens(groups)
+        for style in ("one-line", "break-after-punctuation"):
+            for i in range(len(toks) - 1):
+                for csep in TAB_COMMENT_SEPS:
+                    seps = []
+                    for j, (text, kind, fl) in enumerate(toks):
+                        if j == i:
+                            seps.append(csep)
+                        elif j == len(toks) - 1 or (text == "." and style == "one-line"):
+                            seps.append("\n")
+                        elif kind == "punct" and style == "break-after-punctuation":
+                            seps.append("\n  ")
+                        else:
+                            seps.append(" ")
+                    yield {"groups": groups, "seps": seps, "base": False, "lead": "", "family": "tab-before-comment"}
+
+
+def ttl_tab_comment_twin(case):
+    """The same document with its comment after one blank (the layout the reader documents)."""
+    twin = dict(case)
+    twin["seps"] = [" # note\n" if "#" in x else x for x in case["seps"]]
+    return twin
